@@ -406,7 +406,7 @@ class Ctx:
                 if ext_out:
                     with open(ext_out, "a") as f:
                         f.write(json.dumps({"ev": "reset", "case": case}) + "\n")
-                        f.write(json.dumps({"ev": "stall", "what": "not quiescent: lock wait or spin in %s" % fn}) + "\n")
+                        f.write(json.dumps({"ev": "stall", "what": "not quiescent: lock wait or spin in %s" % fn, "closed": closed}) + "\n")
                 start = case + 1
                 if sum(1 for c in crashes if c.get("kind") == "stall") >= 3:
                     self.log("three stalls in this engine: not restarting it again")
